@@ -148,6 +148,10 @@ def run_case(case):
         else:
             g0.add_nodes_from(extra)
         d += "+%d isolated" % len(extra)
+    if g0.number_of_nodes() <= 40 and rng.random() < 0.2:
+        from ..graphs import odd_numeric_labels
+        lk, g0 = odd_numeric_labels(rng, g0, res, floats=False)
+        d += "+labels:" + lk
     if rng.random() < 0.2:
         # the graph as the library's own Network class holds it (edges put in through its helpers, no edge attributes yet)
         net = sut("Network()", gcmpy.Network)
